@@ -786,7 +786,8 @@ fn render_struct_line(
             quote!(#right_side,)
         },
         (Unnamed(_), Some(attr), Kind::OwnedIntoExisting | Kind::RefIntoExisting, TypeHint::Tuple | TypeHint::Unspecified) => {
-            let left_field_path = get_field_path(attr.get_field_name_or(&f.member));
+            let position = Unnamed(Index { index: idx as u32, span: Span::call_site() });
+            let left_field_path = get_field_path(attr.get_field_name_or(&position));
             let right_field_path = get_child_field_path(&f.member);
             let right_side = attr.get_action_or(Some(&right_field_path), ctx, || quote!(#obj #right_field_path));
             quote!(other.#left_field_path = #right_side;)
